@@ -110,7 +110,7 @@ def main():
     t0 = time.time()
     tier = common.get_tier()
     cmh.cm()
-    tmo = 240000 if tier == "quick" else 900000
+    tmo = 600000 if tier == "quick" else 1200000
     shapes = [(1, 1), (2, 2), (3, 2), (3, 3)] if tier == "quick" else [(w, d) for w in (1, 2, 3, 4) for d in (1, 2, 3, 4)] + [(8, 8)]
     obs = [common.Ob(f"linear merge == saturating cell-wise sum, {d}x{w}", ob_linear_merge, (w, d, tmo), hard_s=tmo / 1000 * 8 + 120, bounds={"width": w, "depth": d, "tables": "arbitrary"}) for (w, d) in shapes]
     lobs, lbounds, lstubs, loutside = logm.c09_obligations(tier)
